@@ -133,14 +133,19 @@ def run(ctx):
                     z[k] = z[sing[0]]
                     sing.append(k)
             sing.sort()
+        low = rng.random() < 0.3
+        if low:
+            # the points come in a lower precision type (data read from a file) and f returns that type at them; the limit at a singular
+            # point is still computed, and returned, in double precision
+            z = z.astype(np.float32).astype(float)
         z0s = z.copy()
         gname = rng.choice(list(G))
         g = G[gname]
         pts = {k: float(z[k]) for k in sing}
 
-        def f(t, pts=pts, g=g):
-            t = np.asarray(t, dtype=float)
-            out_ = g(t).astype(float)
+        def f(t, pts=pts, g=g, low=low):
+            t = np.asarray(t) if low else np.asarray(t, dtype=float)
+            out_ = g(t)
             for k, p in pts.items():
                 with np.errstate(all='ignore'):
                     out_ = np.where(t == p, np.nan, out_) if False else out_
@@ -148,14 +153,14 @@ def run(ctx):
             res = g(t)
             for p in pts.values():
                 with np.errstate(all='ignore'):
-                    res = res * np.where(t == p, np.nan, 1.0)
+                    res = res * np.where(t == p, np.nan, 1.0).astype(res.dtype if low else float)
             return res
         eng['cases'] += 1
         ctx.count('limit.mask', 'singular=%d' % len(sing))
         with warnings.catch_warnings():
             warnings.simplefilter('ignore')
             try:
-                val, info = Limit(f, full_output=True)(z.reshape(shape))
+                val, info = Limit(f, full_output=True)((z.astype(np.float32) if low else z).reshape(shape))
             except Exception as ex:
                 ctx.violation('Limit raised %r on an array mixing singular and regular points' % ex, z=z.tolist(), singular=sing)
                 continue
@@ -163,7 +168,7 @@ def run(ctx):
             ctx.violation('Limit result does not have the shape of the input', shape=list(shape), got=list(np.shape(val)))
             continue
         with np.errstate(all='ignore'):
-            fz = f(z)
+            fz = np.asarray(f(z.astype(np.float32) if low else z), dtype=float)
         lims = np.ravel(val)[sing] if sing else np.array([])
         line = run_driver(['calllim | %s | %s' % (' '.join('nan' if v != v else q2s(Fraction(float(v))) for v in fz),
                                                    ' '.join(q2s(Fraction(float(v))) for v in lims))], 'C18m')[0]
